@@ -15,7 +15,8 @@ TRUSTED_BASE = [
 ASSUMPTIONS = ["IEEE rounding inside rate*dt is modelled (FloatOps.fillBytes), not verified; the interval bound is evaluated on the implementation's emitted bytes and virtual clock"]
 RULE = ("two-endpoint scenarios with ceilings from 1472 B/s to 20 MB/s on either side, large backlogs, step cadences from 0.1 ms to seconds, repeated flushes per step, "
         "long pauses, loss and feedback patterns; the oracle slides over all pairs of emission instants and checks bytes(t1,t2] <= ceiling*(t2-t1+rtt) + 1472. "
-        "Non-trivial: the endpoint emitted >= 5 frames. Distinct by (ceiling, cadence, backlog bucket, loss).")
+        "Plus real Client/Server pairs whose four configured rates all differ (the ceiling of a direction is min(own max_send_rate, the max_receive_rate in the "
+        "peer's handshake frame), one side flooding, repeated flushes. Non-trivial: the endpoint emitted >= 5 frames. Distinct by (ceiling, cadence, backlog bucket, loss).")
 
 def bits_to_float(b):
     return struct.unpack("<d", struct.pack("<Q", int(b)))[0]
@@ -184,7 +185,7 @@ def fine_cadence_scenario(r, it, tier, idx):
     sim.run(1500 if tier == "quick" else 20000, dt, Net(), Net(), traffic, probe_every=50)
     return sim
 
-def streams(rng, tier, ctx):
+def streams(rng, tier, ctx, with_ep=True):
     n = 24 if tier == "quick" else 300
     it = Interactive("hc")
     cases = []; meta = {}
@@ -198,15 +199,71 @@ def streams(rng, tier, ctx):
             cases.append((cid, sim.ops)); meta[cid] = sim
     finally:
         it.close()
-    return [{"name": "rate", "mode": "hc", "cases": cases, "meta": meta, "case_timeout": 120}]
+    out = [{"name": "rate", "mode": "hc", "cases": cases, "meta": meta, "case_timeout": 120}]
+    if not with_ep:
+        return out
+    # real endpoints: the ceiling of a direction is min(sender's max_send_rate, the max_receive_rate the PEER put into its
+    # handshake frame); all four configured rates differ, one side floods
+    from props import ep_common as E
+    ne = 8 if tier == "quick" else 100
+    it = Interactive("ep")
+    ecases = []; emeta = {}
+    try:
+        for i in range(ne):
+            r = rng.fork()
+            it.op("=== gene%d" % i)
+            sim = E.EpSim(r, inter=it)
+            vals = [30_000, 45_000, 70_000, 110_000, 180_000, 300_000, 500_000]
+            picked = []
+            while len(picked) < 4:
+                v = r.pick(vals)
+                if v not in picked:
+                    picked.append(v)
+            flooder = "c" if i % 2 == 0 else "s"
+            if i % 4 < 2:
+                picked.sort()                     # the flooded side's max_receive_rate is the smallest of the four
+                peer_recv = picked[0]; rest = picked[1:]
+                k = r.below(3); own_send = rest.pop(k)
+                a, b = rest
+            else:
+                peer_recv, own_send, a, b = picked
+            if flooder == "c":
+                ccfg = dict(E.DEFAULT_EP, send=own_send, recv=a); scfg = dict(E.DEFAULT_EP, send=b, recv=peer_recv)
+            else:
+                scfg = dict(E.DEFAULT_EP, send=own_send, recv=a); ccfg = dict(E.DEFAULT_EP, send=b, recv=peer_recv)
+            sim.srv(8, 8, 1, scfg)
+            lat = r.pick([0, 1_000_000, 5_000_000])
+            nets = {"c2s": E.Net(latency=lat, loss=r.pick([0, 0, 30])), "s2c": E.Net(latency=lat, loss=r.pick([0, 0, 30]))}
+            sim.cli(0, ccfg, nets)
+            sim.run(10, 5_000_000, nets)
+            for _ in range(r.range(30, 60)):
+                sim.send(flooder, 0, r.below(3), r.pick([3, 3, 1]), r.pick([10_000, 5_000, 1_448]))
+            dt = r.pick([1_000_000, 2_000_000, 5_000_000, 10_000_000])
+            extra = r.pick([0, 0, 2])
+            def actions(sim, extra=extra):
+                sim.op("cget 0"); sim.op("sget 0")
+                for _ in range(extra):
+                    sim.absorb(sim.op("cflush 0"), nets); sim.absorb(sim.op("sflush"), nets)
+            sim.run(r.range(500, 900) if tier == "quick" else r.range(800, 3000), dt, nets, actions)
+            sim.ceiling = {"c2s": min(ccfg["send"], scfg["recv"]), "s2c": min(scfg["send"], ccfg["recv"])}
+            sim.meta = {"dt": dt, "flooder": flooder}
+            cid = "e%d" % i
+            ecases.append((cid, sim.ops)); emeta[cid] = sim
+    finally:
+        it.close()
+    out.append({"name": "negotiated_ceiling", "mode": "ep", "cases": ecases, "meta": emeta, "case_timeout": 120})
+    return out
 
 def signature(ops, outs):
+    if any(op.startswith("srv ") for op in ops[:4]):
+        nf = sum(o.count(":D,") for op, o in zip(ops, outs) if op.startswith(("sstep", "cstep")))
+        return None if nf < 5 else (ops[1][:70], ops[2][:70] if len(ops) > 2 else "", min(nf // 50, 9))
     nf = sum(o.count(":D,") + o.count(":A,") + o.count(":S,") for op, o in zip(ops, outs) if op.endswith(" flush"))
     if nf < 5:
         return None
     return (ops[1][:70], min(nf // 10, 9))
 
-def interval_check(ep, frames, probes, ceiling):
+def interval_check(ep, frames, probes, ceiling, rtts=None):
     """bytes(t1,t2] <= ceiling*(t2-t1+rtt) + 1472 for all pairs of emission instants t1 < t2, where rtt is the
     largest RTT estimate reported up to t2 (an over-approximation of the current one, which only weakens the
     demand). Linear scan: the condition for (i, j) is  P[j] - c*t_j - c*R_j - 1472 <= P[i] - c*t_i."""
@@ -214,7 +271,8 @@ def interval_check(ep, frames, probes, ceiling):
     for f in frames:
         ev[f["time"]] = ev.get(f["time"], 0) + f["len"]
     times = sorted(ev)
-    rtts = sorted((p["_time"], 0.0 if p["rate"][6] == "-" else bits_to_float(p["rate"][6])) for p in probes)
+    if rtts is None:
+        rtts = sorted((p["_time"], 0.0 if p["rate"][6] == "-" else bits_to_float(p["rate"][6])) for p in probes)
     worst = None
     best = None; best_i = None      # min over i of P[i] - c*t_i  (P[i] = bytes emitted up to and including t_i)
     P = 0; k = 0; rmax = 0.0
@@ -236,7 +294,35 @@ def interval_check(ep, frames, probes, ceiling):
             best = cur; best_i = j
     return worst
 
+def ep_oracle(stream, cid, ops, outs):
+    from props import ep_common as E
+    fails = E.trap_failures(ops, outs)
+    sim = stream["meta"][cid]
+    sev, cev, log, delivered, calls = E.replay(ops, outs)
+    rtts = {"c2s": [], "s2c": []}
+    t = 0
+    for op, o in zip(ops, outs):
+        w = op.split(" ")
+        if w[0] == "t":
+            t = int(w[1])
+        elif w[0] in ("cget", "sget") and "rtt=" in o:
+            v = o.split("rtt=")[1].split(" ")[0]
+            rtts["c2s" if w[0] == "cget" else "s2c"].append((t, 0.0 if v == "-" else bits_to_float(v)))
+    for dr in ("c2s", "s2c"):
+        fs = [d for d in log.get((0, dr), []) if d.get("kind") in ("D", "A", "S")]
+        if len(fs) < 2:
+            continue
+        w = interval_check(dr, fs, None, sim.ceiling[dr], rtts=sorted(rtts[dr]))
+        if w:
+            who = "client" if dr == "c2s" else "server"
+            fails.append({"oracle": "rate_ceiling", "detail": "%s (negotiated ceiling min(own max_send_rate, peer max_receive_rate) = %d B/s, step %s ns): %d bytes in (%.6f s, %.6f s] > bound %.1f" %
+                          (who, sim.ceiling[dr], sim.meta["dt"], w[3], w[1] / 1e9, w[2] / 1e9, w[4]),
+                          "signature": {"oracle": "rate_ceiling", "cause": "negotiated", "side": who}})
+    return fails
+
 def oracle(stream, cid, ops, outs):
+    if stream["mode"] == "ep":
+        return ep_oracle(stream, cid, ops, outs)
     fails = H.trap_failures(ops, outs)
     sim = stream["meta"][cid]
     delivered, frames, probes, gets = H.replay_outputs(ops, outs)
